@@ -20,9 +20,10 @@ struct Result { int status; std::string bin, listing, err; bool operator==(const
 // errno is process-global state a tool can leave behind and read back; the harness's own file handling between two tool calls would overwrite it,
 // so it is carried from the end of one tool call to the start of the next (g_errno = 0 starts a fresh history)
 static int g_errno = 0;
-static Result produce(const Src &s, const std::string &outPath) {
+// cleanBefore = false: the output file of the previous tool call is still there (a tool that does not truncate what it overwrites then shows a stale tail)
+static Result produce(const Src &s, const std::string &outPath, bool cleanBefore = true, bool cleanAfter = true) {
   Result r;
-  unlink(outPath.c_str());
+  if (cleanBefore) unlink(outPath.c_str());
   if (s.isAsm) {
     errno = g_errno;
     auto a = ad::assemble_text(s.text, ad::A_FILE | ad::A_LISTING, outPath);
@@ -38,7 +39,7 @@ static Result produce(const Src &s, const std::string &outPath) {
     g_errno = errno;
     r.listing = l.out; if (l.status != a.status) r.err += "|listing status " + std::to_string(l.status);
   }
-  unlink(outPath.c_str());
+  if (cleanAfter) unlink(outPath.c_str());
   return r;
 }
 static int runProc(const std::vector<std::string> &argv, const std::vector<std::string> &envv, const std::string &cwd, std::string &out, std::string &err, double timeout) {
@@ -197,8 +198,9 @@ int main(int argc, char **argv) {
         g_errno = 0; Result alone = produce(s, out);
         for (auto &h : hist) {
           g_errno = 0;
-          (void)produce(poison[h.first], out); if (h.second >= 0) (void)produce(poison[h.second], out);
-          Result r = produce(s, out);
+          // the predecessors' output file stays in place and is overwritten by the subject
+          (void)produce(poison[h.first], out, true, false); if (h.second >= 0) (void)produce(poison[h.second], out, false, false);
+          Result r = produce(s, out, false, true);
           st.add("pairs"); st.add("history_runs");
           if (!(r == alone)) {
             std::string what = r.status != alone.status ? "verdict" : r.bin != alone.bin ? "binary" : r.listing != alone.listing ? "listing" : "diagnostic";
